@@ -288,7 +288,7 @@ func genC05(ctx *fw.Ctx) []fw.Case {
 			srcs = append(srcs, s)
 		}
 	}
-	srcs = append(srcs, mgenSources(ctx, ctx.Pick(60, 1500))...)
+	srcs = append(srcs, mgenSources(ctx, ctx.Pick(120, 3000))...)
 	for _, s := range srcs {
 		s := s
 		cases = append(cases, fw.Case{ID: s.ID, Run: func(r *fw.Rec) { c05Source(r, s) }})
